@@ -34,5 +34,8 @@ class Cloning:
     cpy = self.__class__(data_cpy, vlevel = self.vlevel,
                          virtual = self.virtual, version = self.version)
     cpy._datatype = self._datatype.copy()
+    if "_positional_fieldnames" in self.__dict__:
+      # custom records: the names of the positional fields are per instance
+      cpy._positional_fieldnames = list(self._positional_fieldnames)
     # cpy._refs and cpy._gfa are not set, so that the cpy is disconnected
     return cpy
